@@ -149,7 +149,7 @@ def run(ctx, rep):
             for s in blk["s"]:
                 if s[0] == "=" and s[2][0] == "agg" and s[2][1][0] == "adt" and s[2][1][1].endswith("binarysorted::TypeIndex"):
                     cons.append((b, bi, s))
-    rep.floor("C17.a", "TypeIndex constructions", len(cons), 2)
+    rep.floor("C17.a", "TypeIndex constructions", len(cons), 1)
     for (b, bi, s) in cons:
         k = fn_key(b)
         idx = s[2][1][3].index("entries")
